@@ -186,7 +186,8 @@ mod properties {
                 }
                 PropertyType::SubscriptionIdentifier => {
                     let (id_len, id) = length(bytes.iter())?;
-                    cursor += 1 + id_len;
+                    // the identifier byte has been counted above
+                    cursor += id_len;
                     bytes.advance(id_len);
                     subscription_identifiers.push(id);
                 }
